@@ -66,12 +66,19 @@ func readDirBounded(cl *Client, p string) ([]os.FileInfo, error, bool) {
 	select {
 	case r := <-ch:
 		return r.fi, r.err, true
-	case <-time.After(15 * time.Second):
+	case <-time.After(10 * time.Second):
 		return nil, nil, false
 	}
 }
 
+// lsHangs counts listings that did not terminate; after three the remaining cases are skipped (each costs a watchdog
+// period and the violation is already on record).
+var lsHangs int
+
 func lsRunRS(t testing.TB, tr *tracer, sc lsScenario, variant int, alloc bool) {
+	if lsHangs >= 3 {
+		return
+	}
 	tr.reset(kv{"kind": "listing", "backend": "rs", "n": sc.N, "b": sc.B, "variant": variant, "script": sc.Script})
 	old := MaxFilelist
 	MaxFilelist = int64(sc.B)
@@ -145,6 +152,7 @@ func lsRunRS(t testing.TB, tr *tracer, sc lsScenario, variant int, alloc bool) {
 		cl.Close()
 		sess.waitServe(5 * time.Second)
 	} else {
+		lsHangs++
 		sess.conn.Close()
 	}
 }
